@@ -124,13 +124,10 @@ def check_model(rep, drv, gen, rng, m, text, c, npts=3, fixed_points=None):
         what, pt, name = failing
         gen_txt = fns["monitor_values"]["lets"].get(name) if name else None
         key = None
-        if name and gen_txt and "ContinuousConditional" in lang.render(defs[name]) and "nan" in what \
-                and re.search(r"(?<![\d.])0\.0 ?\*[^,]*exp\(", gen_txt) and "numpy.where" in gen_txt:
-            key = "C01-ccond-exp-split-in-conditional"
-        elif name and gen_txt and re.search(r"logical_and\((\w+) >= 0, \1 <= numpy\.pi\)", gen_txt) \
-                and re.search(r"[aA]bs\(", lang.render(defs[name])) and re.search(r"(sin|cos|tan)\(", lang.render(defs[name])) \
-                and "Conditional" in lang.render(defs[name]):
-            key = "C01-simplify-abs-trig-in-conditional"
+        if name and due_to_condition_simplify(c, lay, pt, name, sv.get(name) if isinstance(sv, dict) else None, S):
+            # the open finding, identified by its call site: the value is right as soon as sympy.simplify inside
+            # gotranx.codegen.base._print_Piecewise leaves the conditions as they are written
+            key = "C01-sympy-simplify-rewrites-a-condition"
         rep.violation(what, {"kind": "direct", "text": text, "inputs": pt, "name": name,
                              "definition": None if name is None else lang.render(defs[name]),
                              "generated": gen_txt}, finding_key=key)
@@ -143,6 +140,104 @@ def check_model(rep, drv, gen, rng, m, text, c, npts=3, fixed_points=None):
     for e in defs.values():
         lang.ops_of(e, ops)
     return ops
+
+
+def due_to_condition_simplify(c, lay, pt, name, want, S):
+    """does the generated code compute the documented value of [name] at [pt] once sympy.simplify (called by the
+    shared Piecewise printer on the conditions) is replaced by the identity?"""
+    if want is None:
+        return False
+    from unittest import mock
+    import sympy as _sympy
+    try:
+        with mock.patch.object(_sympy, "simplify", lambda e, *a_, **k_: e):
+            code2 = impl.gen_python(c.ode)
+        ns2 = impl.exec_module(code2)
+        fns2 = impl.export_functions(code2)
+        isx, st, ps = pipeline.inputs_sx(lay, pt)
+        with np.errstate(all="ignore"):
+            mv2 = impl.call_numpy(ns2["monitor_values"], fns2["monitor_values"]["args"], pt["t"], st, ps)
+        got2 = dict(zip(lay["order"], [float(x) for x in mv2]))
+        return name in got2 and close(got2[name], want, S)
+    except Exception:  # noqa: BLE001
+        return False
+
+
+# ---------- conditions evaluated exactly on their boundaries ----------
+THRESH = [0, 1, 3, 0.5, -1]
+GRID = [-1.0, 0.0, 0.5, 1.0, 2.0, 3.0, 4.0]
+RELS = {"Lt": lambda a, b: a < b, "Gt": lambda a, b: a > b, "Le": lambda a, b: a <= b, "Ge": lambda a, b: a >= b,
+        "Eq": lambda a, b: a == b}
+
+
+def rand_cond(rng, depth):
+    """(text, python function of (x, y, t)) of a condition over the states x, y, the time and literal thresholds"""
+    if depth == 0 or rng.random() < 0.3:
+        v = rng.choice(["x", "y", "x", "y", "t", "time"]); r = rng.choice(list(RELS)); c = rng.choice(THRESH)
+        pick = (lambda x, y, t, v=v: x if v == "x" else y if v == "y" else t)
+        if rng.random() < 0.5:
+            return f"{r}({v}, {c})", (lambda x, y, t, r=r, c=c, pick=pick: RELS[r](pick(x, y, t), c))
+        return f"{r}({c}, {v})", (lambda x, y, t, r=r, c=c, pick=pick: RELS[r](c, pick(x, y, t)))
+    k = rng.choice(["Not", "And", "Or", "And", "Or"])
+    if k == "Not":
+        t_, f = rand_cond(rng, depth - 1)
+        return f"Not({t_})", (lambda x, y, t, f=f: not f(x, y, t))
+    parts = [rand_cond(rng, depth - 1) for _ in range(rng.choice([2, 2, 3]))]
+    txt = f"{k}(" + ", ".join(p[0] for p in parts) + ")"
+    if k == "And":
+        return txt, (lambda x, y, t, parts=parts: all(p[1](x, y, t) for p in parts))
+    return txt, (lambda x, y, t, parts=parts: any(p[1](x, y, t) for p in parts))
+
+
+TGRID = [-2.0, -1.0, 0.0, 1.0]
+XGRID = [-1.0, 0.0, 0.5, 1.0, 3.0]
+
+
+def boundary_case(rep, drv, rng):
+    """conditionals inside arithmetic (the path through the shared Piecewise printer), nested conditionals,
+    abs / sign-sensitive uses of the time, evaluated on a grid that contains every threshold and negative
+    times: all comparisons are exact"""
+    c1, f1 = rand_cond(rng, 2)
+    c2, f2 = rand_cond(rng, 2)
+    c3, f3 = rand_cond(rng, 1)
+    text = ("states(x=1, y=2)\n"
+            f"a = 1 + Conditional({c1}, 10, 20)\n"
+            f"b = 2*Conditional({c2}, Conditional({c3}, 1, 2), 3) - a\n"
+            f"dx_dt = a + Conditional({c3}, x, y) + abs(t)\n"
+            f"dy_dt = b*Conditional({c1}, 1, -1) + abs(time - 1)\n")
+    c = pipeline.Case(drv, text)
+    rep.case(key=text, nontrivial=True)
+    if c.err is not None:
+        rep.count("boundary_model_rejected:" + str(c.err)[:40])
+        return
+    code = family.try_generate(rep, c, text)
+    if isinstance(code, Exception):
+        rep.violation(f"code generation raises {type(code).__name__} for an accepted model: {str(code)[:120]}",
+                      {"kind": "direct", "text": text, "exception": repr(code)[:300]})
+        return
+    ns = impl.exec_module(code)
+    fns = impl.export_functions(code)
+    lay = c.impl_layout()
+    for t in TGRID:
+        for x in XGRID:
+            for y in XGRID:
+                a_ = 1 + (10 if f1(x, y, t) else 20)
+                b_ = 2 * ((1 if f3(x, y, t) else 2) if f2(x, y, t) else 3) - a_
+                want = {"a": a_, "b": b_, "dx_dt": a_ + (x if f3(x, y, t) else y) + abs(t),
+                        "dy_dt": b_ * (1 if f1(x, y, t) else -1) + abs(t - 1)}
+                pt = {"t": t, "dt": 0.0, "states": {"x": x, "y": y}, "params": {}}
+                isx, st, ps = pipeline.inputs_sx(lay, pt)
+                with np.errstate(all="ignore"):
+                    mv = impl.call_numpy(ns["monitor_values"], fns["monitor_values"]["args"], t, st, ps)
+                got = dict(zip(lay["order"], [float(v) for v in mv]))
+                rep.count("boundary_points")
+                for nm in lay["order"]:
+                    if got[nm] != want[nm]:
+                        key = "C01-sympy-simplify-rewrites-a-condition" if due_to_condition_simplify(c, lay, pt, nm, want[nm], 1.0) else None
+                        rep.violation(f"generated code computes {nm} = {got[nm]!r} at t = {t}, x = {x}, y = {y} (comparisons exact); the model text defines {want[nm]!r}",
+                                      {"kind": "direct", "text": text, "inputs": pt, "name": nm, "generated": fns["monitor_values"]["lets"].get(nm)},
+                                      finding_key=key)
+                        return
 
 
 def main(argv=None):
@@ -173,6 +268,8 @@ def main(argv=None):
         core.guarded(rep, text, check_model, rep, drv, gen, rng, m, text, c, fixed_points=meta.get("inputs"))
         rep.case(key=text, nontrivial=True)
         rep.count("corpus_models")
+    for i in range(12 if a.tier == "quick" else 200):
+        core.guarded(rep, f"boundary #{i}", boundary_case, rep, drv, rng)
     for i in range(n):
         # vary generator parameters so that depth, conditionals and shapes are all exercised
         gen.max_depth = rng.choice([2, 3, 4, 4, 5, 6])
